@@ -177,6 +177,43 @@ def bay_delegation(ctx, rng):
     return None, None, None
 
 
+def second_flow_state(ctx, rng):
+    """a panel whose flow data (Mach, density, speed) are changed between two evaluations gives the matrices of a freshly
+    defined panel with the new data: derived coefficients are not remembered"""
+    case = pc.gen_panel_case(rng, models=('Plate', 'CPanel'), max_mn=3, y12=False)
+    case['flow'] = 'x'
+    ainf = rng.uniform(250, 340)
+    st = []
+    for _ in range(2):
+        M = rng.choice([1.3, 2., 3.5, rng.uniform(1.1, 4.)])
+        st.append(dict(Mach=M, rho_air=rng.uniform(0.2, 1.2), V=M * ainf, speed_sound=ainf))
+
+    def setup(p, a):
+        p.flow = 'x'
+        p.beta = p.gamma = p.aeromu = None
+        for k, v in a.items():
+            setattr(p, k, v)
+    p = pc.make_panel(case)
+    setup(p, st[0])
+    try:
+        pc.quiet(p.calc_k0, silent=True)
+        pc.quiet(p.calc_kA, silent=True)
+        for k, v in st[1].items():
+            setattr(p, k, v)
+        got = pc.quiet(p.calc_kA, silent=True).toarray()
+        q = pc.make_panel(case)
+        setup(q, st[1])
+        pc.quiet(q.calc_k0, silent=True)
+        want = pc.quiet(q.calc_kA, silent=True).toarray()
+    except Exception as e:
+        return None, None
+    d = pc.rel_diff(got, want)
+    if d > 1e-12:
+        return dict(case=case, states=st), ('calc_kA after changing the flow state (Mach, rho_air, V) of the same panel differs from a freshly '
+                                             'defined panel with the new state: rel %.3e (remembered coefficients)' % d)
+    return None, None
+
+
 def correspondence(ctx):
     ir = pc.translated(ctx)
     rng = ctx.rng
@@ -221,6 +258,12 @@ def correspondence(ctx):
         c, bad, ident = bay_delegation(ctx, rng)
         ctx.evaluations += 1
         if bad and ctx.violation('C19 fails on the implementation: ' + bad, dict(case=c, derived='bay'), identity=ident):
+            return
+    for t in range(ctx.scale(6, 40)):
+        c, bad = second_flow_state(ctx, rng)
+        ctx.evaluations += 1
+        if bad:
+            ctx.violation('C19 fails on the implementation: ' + bad, dict(case=c, derived='second flow state'))
             return
     ctx.cov['input_distribution'] = dist
     ctx.cov['translated_kernels'] = ['%s.%s' % (m, k) for m in ('Plate', 'PlateW', 'CPanel') for k in KERNELS]
